@@ -47,6 +47,11 @@ func NewFloatNode(byteSize int, values ...interface{}) ItemNode {
 	for i, value := range values {
 		switch value := value.(type) {
 		case int:
+			if byteSize == 4 {
+				// round once, directly to the width of the node
+				nodeValues = append(nodeValues, float64(float32(value)))
+				continue
+			}
 			nodeValues = append(nodeValues, float64(value))
 		case int8:
 			nodeValues = append(nodeValues, float64(value))
@@ -55,8 +60,18 @@ func NewFloatNode(byteSize int, values ...interface{}) ItemNode {
 		case int32:
 			nodeValues = append(nodeValues, float64(value))
 		case int64:
+			if byteSize == 4 {
+				// round once, directly to the width of the node
+				nodeValues = append(nodeValues, float64(float32(value)))
+				continue
+			}
 			nodeValues = append(nodeValues, float64(value))
 		case uint:
+			if byteSize == 4 {
+				// round once, directly to the width of the node
+				nodeValues = append(nodeValues, float64(float32(value)))
+				continue
+			}
 			nodeValues = append(nodeValues, float64(value))
 		case uint8:
 			nodeValues = append(nodeValues, float64(value))
@@ -65,6 +80,11 @@ func NewFloatNode(byteSize int, values ...interface{}) ItemNode {
 		case uint32:
 			nodeValues = append(nodeValues, float64(value))
 		case uint64:
+			if byteSize == 4 {
+				// round once, directly to the width of the node
+				nodeValues = append(nodeValues, float64(float32(value)))
+				continue
+			}
 			nodeValues = append(nodeValues, float64(value))
 		case float32:
 			nodeValues = append(nodeValues, float64(value))
